@@ -164,7 +164,7 @@ fn noise_string(mut idx: usize, len: usize) -> String {
 pub fn run() -> i32 {
     let mut r = Report::new("C02");
     let thorough = r.thorough();
-    r.rule = "four exhaustive families, every case through compile + Rule::apply per word and through run / trace_changes / get_trace_string: (1) every rule of rulegen(n) x hand-shaped words; (2) every rule at token-edit distance 1 (delete, duplicate, replace by / insert each of 48 tokens) from a frozen corpus of documented, test-suite and example-project rules x 8 words; (3) every string of <= m chars over a 48-char alphabet as rule, word, deromaniser and romaniser; (4) over-large and odd numeric literals in every position that takes digits. Oracle: returns Ok or Err within the step budget 2 000 + 20 (|w|+1)(|r|+1); any panic or budget exhaustion is a violation. Non-trivial = returned Ok.".into();
+    r.rule = "four exhaustive families, every case through compile + Rule::apply per word and through run / trace_changes / get_trace_string: (1) every rule of rulegen(n) x hand-shaped words; (2) every rule at token-edit distance 1 (delete, duplicate, replace by / insert each of 48 tokens) from a frozen corpus of documented, test-suite and example-project rules x 8 words; (3) every string of <= m chars over a 48-char alphabet as rule, word, deromaniser and romaniser; (4) over-large and odd numeric literals in every position that takes digits; (5) every romaniser whose input is a sequence of 1..k elements over 11 element kinds (segments and matrices with length / stress modifiers, `$`) x 3 replacement kinds, and every deromaniser with such an output, on 10 words with long segments at syllable ends. Oracle: returns Ok or Err within the step budget 2 000 + 20 (|w|+1)(|r|+1); any panic or budget exhaustion is a violation. Non-trivial = returned Ok.".into();
     r.assumptions.push("release build semantics (debug_assert off), as shipped".into());
     r.assumptions.push("stack overflow / allocation failure would abort the check (exit code != 0,1), never pass silently".into());
     let mut tot = Acc::default();
@@ -227,6 +227,32 @@ pub fn run() -> i32 {
     }
     r.boxes.push(json!({"box": format!("3 raw noise: all strings <= {} chars over 48 chars x 4 roles", m), "calls": f3.evals, "ok": f3.ok, "err": f3.err, "crash_classes": f3.crashes.len()}));
     tot.merge(f3);
+    // ---- family 5: alias grammar (romaniser inputs of 1..k elements with modifiers, deromaniser outputs likewise)
+    let rin = ["a", "a:[+long]", "V:[+long]", "[+nasal]", "n:[+stress]", "V", "t:[-long]", "[+long]", "a:[+overlong]", "C:[+long, +stress]", "$"];
+    let rout = ["Q", "+q", "*"];
+    let awords: Vec<String> = ["ˈaː", "ˈkaː.na", "taːn", "ˈtaːn.ta", "an", "nː", "taːː", "a", "ˈna.taː", "kan.ta5"].iter().map(|s| s.to_string()).collect();
+    let ak = if thorough { 3 } else { 2 };
+    let mut alines: Vec<(String, bool)> = vec![];
+    for k in 1..=ak { for idx in 0..rin.len().pow(k as u32) {
+        let mut q = idx; let mut v = vec![]; for _ in 0..k { v.push(rin[q % rin.len()]); q /= rin.len(); }
+        for o in rout { alines.push((format!("{} > {}", v.join(""), o), false)); }
+        // the same element sequence as a deromaniser output
+        if !v.contains(&"$") && !v.contains(&"V") && !v.contains(&"[+nasal]") && !v.contains(&"V:[+long]") && !v.contains(&"[+long]") && !v.contains(&"C:[+long, +stress]") { alines.push((format!("Q > {}", v.join("")), true)); alines.push((format!("+Q > {}", v.join("")), true)); }
+    } }
+    let mut f5 = Acc::default();
+    par_fold(alines.len(), 16, Acc::default, |i, a| {
+        let (line, into) = &alines[i];
+        let al = vec![line.clone()];
+        for w in &awords {
+            a.evals += 1;
+            let word = if *into { w.replace('a', "Q") } else { w.clone() };
+            let o = guarded(budget_for(word.chars().count() + 4, line.chars().count()) * 2, || if *into { asca::run(&[], &[word.clone()], &al, &[]).is_ok() } else { asca::run(&[], &[word.clone()], &[], &al).is_ok() });
+            match &o { Out::Ok(true) => a.ok += 1, Out::Ok(false) => a.err += 1, _ => { a.crash(&o, "alias-grammar", format!("{} alias `{}` with word `{}`", if *into { "into" } else { "from" }, line, word), json!({"kind": "alias", "alias": line, "into": into, "word": word})); break; } }
+        }
+    }, |a| f5.merge(a));
+    r.boxes.push(json!({"box": format!("5 alias grammar: romaniser inputs / deromaniser outputs of <= {} elements", ak), "alias_lines": alines.len(), "calls": f5.evals, "ok": f5.ok, "err": f5.err, "crash_classes": f5.crashes.len()}));
+    r.guard(f5.ok > 1000, "alias family: more than 1000 calls returned Ok");
+    tot.merge(f5);
     // ---- family 4: numeric literals
     let nums = ["0", "1", "00", "007", "4294967296", "18446744073709551616", "99999999999999999999", "65536", "99999"];
     let mut f4 = Acc::default();
@@ -261,6 +287,11 @@ pub fn replay(case: &Value) -> Result<String, String> {
         Some("rule") => { let ws: Vec<&str> = case["words"].as_array().map(|v| v.iter().filter_map(|x| x.as_str()).collect()).unwrap_or_default(); rule_case(case["rule"].as_str().unwrap_or(""), if ws.is_empty() { &W8 } else { &ws }, "replay", &mut a); }
         Some("trace") => { rule_case(case["rule"].as_str().unwrap_or(""), &W8, "replay", &mut a); }
         Some("word") => word_case(case["word"].as_str().unwrap_or(""), "replay", &mut a),
+        Some("alias") if case["word"].is_string() => {
+            let al = vec![case["alias"].as_str().unwrap_or("").to_string()]; let w = case["word"].as_str().unwrap_or("").to_string(); let into = case["into"].as_bool().unwrap_or(true);
+            let o = guarded(1_000_000, || if into { asca::run(&[], &[w.clone()], &al, &[]).is_ok() } else { asca::run(&[], &[w.clone()], &[], &al).is_ok() });
+            if !o.is_ok() { a.crash(&o, "replay", format!("alias `{}` with word `{}`", al[0], w), case.clone()); }
+        }
         Some("alias") => alias_case(case["alias"].as_str().unwrap_or(""), case["into"].as_bool().unwrap_or(true), "replay", &mut a),
         _ => return Err("unknown case".into()),
     }
